@@ -203,4 +203,85 @@ theorem marker_of_layout_refines (X : Ext) (hc : ∀ s, X.canonName (X.canonName
   rw [hs, ← flat_eq_lst ℓ.body t h.2.2.2] at this
   exact this
 
+/-! ### decidability (for the examples) -/
+
+instance decFitsLex : (ℓ : ExprLay) → (t : Formula) → Decidable (FitsLex ℓ t)
+  | .paren w1 ℓ w2, t => by
+    have := decFitsLex ℓ t
+    show Decidable (WsRun w1 ∧ WsRun w2 ∧ FitsLex ℓ t); infer_instance
+  | .atom L, .atom a => by show Decidable (FitsAtom a L); infer_instance
+  | .atom _, .and _ _ => by show Decidable False; infer_instance
+  | .atom _, .or _ _ => by show Decidable False; infer_instance
+  | .bin _ _ _ _, .atom _ => by show Decidable False; infer_instance
+  | .bin ℓl w1 w2 ℓr, .and l r => by
+    have := decFitsLex ℓl l; have := decFitsLex ℓr r
+    show Decidable (FitsLex ℓl l ∧ FitsLex ℓr r ∧ WsRun w1 ∧ WsRun w2 ∧
+      NoMerge (renderE ℓl l) w1 s_and ∧ NoMerge s_and w2 (renderE ℓr r)); infer_instance
+  | .bin ℓl w1 w2 ℓr, .or l r => by
+    have := decFitsLex ℓl l; have := decFitsLex ℓr r
+    show Decidable (FitsLex ℓl l ∧ FitsLex ℓr r ∧ WsRun w1 ∧ WsRun w2 ∧
+      NoMerge (renderE ℓl l) w1 s_or ∧ NoMerge s_or w2 (renderE ℓr r)); infer_instance
+
+instance decGrouped : (ℓ : ExprLay) → (t : Formula) → Decidable (Grouped ℓ t)
+  | .paren _ ℓ _, t => by have := decGrouped ℓ t; show Decidable (Grouped ℓ t); infer_instance
+  | .atom _, .atom _ => by show Decidable True; infer_instance
+  | .atom _, .and _ _ => by show Decidable False; infer_instance
+  | .atom _, .or _ _ => by show Decidable False; infer_instance
+  | .bin _ _ _ _, .atom _ => by show Decidable False; infer_instance
+  | .bin ℓl _ _ ℓr, .and l r => by
+    have := decGrouped ℓl l; have := decGrouped ℓr r
+    show Decidable (Grouped ℓl l ∧ Grouped ℓr r ∧ 1 ≤ lev ℓl l ∧ 2 ≤ lev ℓr r); infer_instance
+  | .bin ℓl _ _ ℓr, .or l r => by
+    have := decGrouped ℓl l; have := decGrouped ℓr r
+    show Decidable (Grouped ℓl l ∧ Grouped ℓr r ∧ 1 ≤ lev ℓr r); infer_instance
+
+instance (t : Formula) (ℓ : MkLayout) : Decidable (WF t ℓ) := by unfold WF; infer_instance
+
+/-! ### Non-vacuity: two very different layouts of one formula -/
+section LayoutExamples
+
+def v_os_dot : Str := [111, 115, 46, 110, 97, 109, 101]
+def v_extra : Str := [101, 120, 116, 114, 97]
+/-- `a1 or a2 and (a3 or a4)` with the comparisons of the examples of C07.lean -/
+def exT : Formula := .or (.atom a1) (.and (.atom a2) (.or (.atom a3) (.atom a4)))
+
+/-- `  os.name=='a'or"b"in extra and(python_full_version>="3.8"<TAB>or extra not <TAB> in 'A_b' )<TAB>`:
+PEP 345 spelling, both quote styles, no white space where none is needed, tabs, a two-space-and-tab `not in` -/
+def layA : MkLayout :=
+  ⟨[32, 32],
+   .bin (.atom ⟨.spelled v_os_dot, [], [], [], .quoted 39⟩) [] []
+     (.bin (.atom ⟨.quoted 34, [], [], [32], .spelled v_extra⟩) [32] []
+       (.paren [] (.bin (.atom ⟨.spelled s_pfv, [], [], [], .quoted 34⟩) [9] [32]
+                        (.atom ⟨.spelled v_extra, [32], [32, 9, 32], [32], .quoted 39⟩)) [32])),
+   [9]⟩
+
+/-- `((os_name == "a") or ("b" in extra) and ((python_full_version >= "3.8" or extra not in "A_b")))`:
+canonical names and quotes, redundant parentheses around comparisons, a group and the whole -/
+def layB : MkLayout :=
+  ⟨[],
+   .paren [] (.bin (.paren [] (.atom ⟨.spelled os_name, [32], [], [32], .quoted 34⟩) []) [32] [32]
+     (.bin (.paren [] (.atom ⟨.quoted 34, [32], [], [32], .spelled v_extra⟩) []) [32] [32]
+       (.paren [] (.paren [] (.bin (.atom ⟨.spelled s_pfv, [32], [], [32], .quoted 34⟩) [32] [32]
+                        (.atom ⟨.spelled v_extra, [32], [32], [32], .quoted 34⟩)) []) []))) [],
+   []⟩
+
+example : renderL exT layA = [32, 32, 111, 115, 46, 110, 97, 109, 101, 61, 61, 39, 97, 39, 111, 114, 34, 98, 34, 105, 110, 32, 101, 120, 116, 114, 97, 32, 97, 110, 100, 40, 112, 121, 116, 104, 111, 110, 95, 102, 117, 108, 108, 95, 118, 101, 114, 115, 105, 111, 110, 62, 61, 34, 51, 46, 56, 34, 9, 111, 114, 32, 101, 120, 116, 114, 97, 32, 110, 111, 116, 32, 9, 32, 105, 110, 32, 39, 65, 95, 98, 39, 32, 41, 9] := by decide +kernel
+example : renderL exT layB = [40, 40, 111, 115, 95, 110, 97, 109, 101, 32, 61, 61, 32, 34, 97, 34, 41, 32, 111, 114, 32, 40, 34, 98, 34, 32, 105, 110, 32, 101, 120, 116, 114, 97, 41, 32, 97, 110, 100, 32, 40, 40, 112, 121, 116, 104, 111, 110, 95, 102, 117, 108, 108, 95, 118, 101, 114, 115, 105, 111, 110, 32, 62, 61, 32, 34, 51, 46, 56, 34, 32, 111, 114, 32, 101, 120, 116, 114, 97, 32, 110, 111, 116, 32, 105, 110, 32, 34, 65, 95, 98, 34, 41, 41, 41] := by decide +kernel
+example : WF exT layA := by decide +kernel
+example : WF exT layB := by decide +kernel
+/-- the parser's lists differ (nesting), the formula is the same -/
+example : M.beqL (flat layA.body exT) (flat layB.body exT) = false := by decide +kernel
+example : formulaOf (flat layA.body exT) = some exT ∧ formulaOf (flat layB.body exT) = some exT := by decide
+/-- an `or` written bare under `and` is *not* a layout of `and _ (or _ _)` (and the parser would read it otherwise) -/
+example : ¬ Grouped (.bin (.atom ⟨.spelled os_name, [], [], [], .quoted 34⟩) [32] [32]
+    (.bin (.atom ⟨.spelled os_name, [], [], [], .quoted 34⟩) [32] [32] (.atom ⟨.spelled os_name, [], [], [], .quoted 34⟩)))
+    (.and (.atom a1) (.or (.atom a1) (.atom a1))) := by decide
+/-- white space may not be dropped between two words: `extra and` needs its space -/
+example : ¬ NoMerge v_extra [] s_and := by decide +kernel
+/-- the kernel runs the real tokenizer and parser on layout A (cross-check of the theorem at one point) -/
+example : ((Mk.parse (renderL exT layA)).toOption.map fun m => M.beqL m (flat layA.body exT)) = some true := by decide +kernel
+example : (evaluate X0 dflt0 none (normalizeExtra X0 (flat layA.body exT))).toOption = some true := by decide +kernel
+
+end LayoutExamples
+
 end C07
